@@ -284,14 +284,17 @@ def prefix_suffix(tokens, base_url):
 
 
 @descriptor('counter-style')
-@comma_separated_list
 def range(tokens):
     """``range`` descriptor validation."""
-    if len(tokens) == 1:
-        keyword = get_single_keyword(tokens)
-        if keyword == 'auto':
-            return 'auto'
-    elif len(tokens) == 2:
+    if get_single_keyword(tokens) == 'auto':
+        return 'auto'
+    return range_list(tokens)
+
+
+@comma_separated_list
+def range_list(tokens):
+    """``range`` descriptor validation: list of ranges."""
+    if len(tokens) == 2:
         values = []
         for i, token in enumerate(tokens):
             if token.type == 'ident' and token.value == 'infinite':
